@@ -2,6 +2,7 @@ package main
 
 import (
 	"fmt"
+	"os"
 	"go/types"
 	"regexp"
 	"sort"
@@ -279,6 +280,9 @@ func (e *Exec) atReturn(fr *Frame, ret *ssa.Return, rv Val) {
 			// a clause that names a local variable which is not yet defined at this return says
 			// nothing about this return (it is still checked at every return where it is defined)
 			if m := reUnknownID.FindStringSubmatch(err.Error()); m != nil && e.L.isLocalName(fr.fn, m[1]) {
+				if os.Getenv("VERIF_LOOPS") != "" {
+					fmt.Fprintf(os.Stderr, "post clause skipped at %s: %v\n", pos, err)
+				}
 				continue
 			}
 			e.errs = append(e.errs, fmt.Sprintf("%s: %v", en.Line, err))
